@@ -257,8 +257,8 @@ impl Repo {
             let target = if t.annotated {
                 let key = (t.name.clone(), t.target);
                 if !self.tag_objects.contains_key(&key) {
-                    // tagger date deliberately differs from the commit date
-                    let body = format!("object {}\ntype commit\ntag {}\ntagger v <v@v> {} +0000\n\nannotated\n", self.shas[t.target], t.name, self.dates[t.target] + 777);
+                    // tagger date deliberately differs from the commit date (40 days later: another day, month and often year)
+                    let body = format!("object {}\ntype commit\ntag {}\ntagger v <v@v> {} +0000\n\nannotated\n", self.shas[t.target], t.name, self.dates[t.target] + 3_456_777);
                     let id = git(&self.dir, &["hash-object", "-t", "tag", "-w", "--stdin"], Some(body.as_bytes())).trim().to_string();
                     self.tag_objects.insert(key.clone(), id);
                 }
